@@ -9,9 +9,11 @@
 
    i.e. for every execution of the asynchronous fail-stop network over the transcribed
    `raft_step`, no two members ever hold different entries at the same committed position.
-   It is NOT proved in full here; what is proved is listed below (`_partial`).            *)
+   It is proved in full: `C40_raft_sms_all` (end of the Raft part).  The theorems before it are
+   the intermediate results (election safety, log matching, ..., Leader Completeness).       *)
 From HV Require Import Proto.RaftNet Proto.PRaftLocal Proto.PRaftElection Proto.PRaftRefine Proto.PRaftLeader
-  Proto.PRaftWf Proto.PRaftLog Proto.PRaftLogRefine Proto.PRaftSms Proto.PRaftLogTerms Proto.PRaftExamples.
+  Proto.PRaftWf Proto.PRaftLog Proto.PRaftLogRefine Proto.PRaftSms Proto.PRaftLogTerms Proto.PRaftExamples
+  Proto.PRaftLC Proto.PRaftLC2 Proto.PRaftLC3 Proto.PRaftLC4 Proto.PRaftLC5.
 From HV Require Proto.PaxosModel Proto.PPaxos Proto.PaxosCheck Proto.PPaxosRecommit.
 
 Definition C40_raft_sms (n : N) : Prop := C40_raft_sms_stmt n.
@@ -56,13 +58,12 @@ Example C40_nonvacuous : exists g, reachable 3 g /\
   committed_prefix (g_st g 1) = [ex_entry] /\ term (g_st g 2) = 0.
 Proof. exact ex_run. Qed.
 
-(* C40_raft_sms_partial: what is proved towards State Machine Safety (C40_raft_sms), for every
+(* C40_raft_sms_partial (round 1): the easy components of State Machine Safety, for every
    execution of the network (any delay / reordering / duplication / loss, fail-stop crashes) over
-   the transcribed raft_step.  MISSING for the full property: Leader Completeness (`LCstar`, Proto/PRaftSms.v).
-   Log Matching and the reduction SMS <= Leader Completeness are proved below
-   (C40_raft_log_matching, C40_raft_sms_from_leader_completeness). The safety predicates are also
-   evaluated on every simulated cluster run of the real raft_step by the correspondence check
-   (executable forms `log_matching_b`, `sms_pair_b`), but not proved.  Paxos is not covered. *)
+   the transcribed raft_step.  The full property is C40_raft_sms_all further down; this theorem is
+   kept because the full proof uses its parts.  The safety predicates are also evaluated on every
+   simulated cluster run of the real raft_step by the correspondence check (executable forms
+   `log_matching_b`, `sms_pair_b`). *)
 Theorem C40_raft_sms_partial : forall n g1 g2, reachable n g1 -> gsteps n g1 g2 ->
   (forall m, term (g_st g1 m) <= term (g_st g2 m)) /\
   (forall m c, term (g_st g1 m) = term (g_st g2 m) ->
@@ -115,10 +116,12 @@ Theorem C40_raft_log_matching : forall n g, reachable n g -> forall a b, a < n -
 Proof. exact log_matching. Qed.
 Print Assumptions C40_raft_log_matching.
 
-(* The reduction: State Machine Safety follows from Leader Completeness.  Leader Completeness is
-   stated on the ghost-instrumented system (per-term leader logs `y_gl`), as `LCstar`: the leader
-   log of every elected term >= the term of a member's last committed entry contains that member's
-   committed prefix.  LCstar is NOT proved; everything else the reduction needs is. *)
+(* A first reduction (round 2): State Machine Safety follows from `LCstar` (the leader log of
+   EVERY elected term >= the term of a member's last committed entry contains that member's
+   committed prefix).  The implication is proved, but `LCstar` is stronger than what Raft
+   guarantees (an old-term entry can become committed only transitively, in a later term; leaders
+   of the terms in between need not have it), so it is not used for the final result; the
+   route actually taken is `C40_raft_leader_completeness` + `C40_raft_commit_sound` below. *)
 Theorem C40_raft_sms_from_leader_completeness : forall n,
   (forall y, leffs n y_init y -> LCstar y) -> C40_raft_sms n.
 Proof. exact sms_from_lc. Qed.
@@ -140,6 +143,63 @@ Theorem C40_raft_log_terms_monotone : forall n g, reachable n g -> forall a,
   (forall i e, nth_error (log (g_st g a)) i = Some e -> e_term e <= term (g_st g a)).
 Proof. exact log_terms_monotone. Qed.
 Print Assumptions C40_raft_log_terms_monotone.
+
+(* ------------------------------------------------------------------ Leader Completeness, SMS *)
+(* The ghost-instrumented system (Proto/PRaftLog.v, `leff`) keeps, next to the member states, every
+   message ever sent, every vote ever cast, the elected (term, member) pairs and the leader log
+   `y_gl t` of every term.  Read from that monotone history (Proto/PRaftLC.v):
+     holds y q t c     : q is the leader of term t, or acknowledged index >= c to it;
+     committed n y t c : entry c of the term-t leader log is of term t, and a majority holds c;
+     pfx c X Y         : X and Y agree on their first c entries. *)
+
+(* Leader Completeness from the vote invariant: strong induction over the terms of elected
+   leaders + quorum intersection *)
+Theorem C40_raft_lc_from_vote_invariant : forall n y, VInv n y ->
+  forall t c, committed n y t c -> forall t' c', t < t' -> In (t', c') (x_elected (y_x y)) ->
+  pfx c (y_gl y t') (y_gl y t).
+Proof. exact LC_from_V. Qed.
+Print Assumptions C40_raft_lc_from_vote_invariant.
+
+(* the ten invariants (log/ghost consistency LInv, sorted and bounded terms LInv2, bookkeeping of
+   acknowledgements and vote requests KInv, persistence of acknowledged prefixes ZInv, membership
+   NInv, what a vote reply / a candidate's votes / an elected leader's quorum guarantee V4, V3,
+   VInvS, commit soundness CSs, commit indices in messages AEc) are preserved by every step *)
+Theorem C40_raft_invariants_step : forall n y y', leff n y y' -> Big n y -> Big n y'.
+Proof. exact leff_Big. Qed.
+Print Assumptions C40_raft_invariants_step.
+
+(* ... and every reachable network state is simulated by a ghost state satisfying all of them *)
+Theorem C40_raft_invariants_reachable : forall n g, reachable n g ->
+  exists y, leffs n y_init y /\ sim g (y_x y) /\ Big n y.
+Proof.
+  intros n g R. destruct (gsteps_lsim n g_init g y_init R) as (y & E & S); [split; auto|].
+  exists y. split; auto. split; auto. apply leffs_Big; auto.
+Qed.
+Print Assumptions C40_raft_invariants_reachable.
+
+(* Leader Completeness: what was committed in term t is in the log of every later leader *)
+Theorem C40_raft_leader_completeness : forall n y, leffs n y_init y ->
+  forall t c, committed n y t c -> forall t' c', t < t' -> In (t', c') (x_elected (y_x y)) ->
+  pfx c (y_gl y t') (y_gl y t).
+Proof. exact leader_completeness. Qed.
+Print Assumptions C40_raft_leader_completeness.
+
+(* commit soundness: every member's commit index is covered by a committed pair (t, c), and the
+   member's committed prefix is a prefix of the term-t leader log *)
+Theorem C40_raft_commit_sound : forall n y, leffs n y_init y ->
+  forall a, 0 < commit (x_st (y_x y) a) ->
+  exists t c, committed n y t c /\ (N.to_nat (commit (x_st (y_x y) a)) <= c)%nat /\
+              pfx (N.to_nat (commit (x_st (y_x y) a))) (log (x_st (y_x y) a)) (y_gl y t).
+Proof. exact commit_sound. Qed.
+Print Assumptions C40_raft_commit_sound.
+
+(* State Machine Safety, in full: every cluster size, every execution (any delay / reordering /
+   duplication / loss of messages, fail-stop crashes, any timer firings and client requests), any
+   two members at any two moments.  Non-vacuity: C40_nonvacuous above (a reachable state where two
+   members have the same non-empty committed prefix). *)
+Theorem C40_raft_sms_all : forall n, C40_raft_sms n.
+Proof. exact raft_sms. Qed.
+Print Assumptions C40_raft_sms_all.
 
 (* ------------------------------------------------------------------ Paxos *)
 (* abstract multi-Paxos (ballots, p1a/p1b/p2a/p2b; Proto/PaxosModel.v): at most one value is ever
